@@ -136,6 +136,21 @@ def _buffer(ns, a, n, writes):
         elif kind == 'mix': b[i] = b[(i + 1) % n] + 3.0 * a[j]
     return b
 
+@op('buffer_views', 1, lambda s, p: (2,) if p['mode'] == 'read' else (3,), poly=True)
+def _buffer_views(ns, a, mode):
+    """aliasing patterns: a view taken BEFORE the write and read afterwards; a write THROUGH a view, read through the buffer"""
+    b = ns.zeros(3, dtype=a)
+    if mode == 'read':
+        v = b[0:2]                      # view first
+        b[0] = a[0] * a[1]              # then write into the buffer
+        b[1] = a[2] + 1.5
+        return v                        # the result is seen only through the view
+    w = b[1:3]
+    w[0] = a[0] * a[2]                  # write through the view
+    b[0] = a[1]
+    w[1] = w[0] * a[3]
+    return b                            # read through the buffer
+
 # small linear algebra on a well-conditioned matrix built from the input
 def _sq(shps, p): return shps[0] if len(shps[0]) == 2 and shps[0][0] == shps[0][1] else None
 op('inv_p', 1, _sq)(lambda ns, a: ns.inv(ns.dot(a, a.T) + _eye(ns, a)))
@@ -188,7 +203,7 @@ def single_op_programs(N=4):
     cs = constants(N, None)
     mat, n = _mat(N)
     for nm, o in OPS.items():
-        if nm in ('getitem', 'reshape', 'sum', 'buffer', 'dot_c'): continue
+        if nm in ('getitem', 'reshape', 'sum', 'buffer', 'dot_c', 'buffer_views'): continue
         if o['arity'] == 1 and 'c' not in o['f'].__code__.co_varnames[:3]:
             if nm in ('transpose', 'trace', 'inv_p'):
                 out.append(Program(N, mat + [(2, 'add_c', (1,), {'c': numpy.arange(N, dtype=float).reshape(n, n) / 4.0}), (3, nm, (2,), {})], nm))
@@ -228,11 +243,14 @@ def single_op_programs(N=4):
     for k, writes in enumerate([[(0, 'copy', 0), (1, 'sq', 1)], [(0, 'copy', 0), (0, 'acc', 1), (1, 'copy', 2 % N)], [(0, 'sq', 0), (0, 'acc', 1), (0, 'acc', 0)],
                                 [(0, 'const', 0), (1, 'mix', 1), (0, 'copy', 0)], [(1, 'copy', 0), (0, 'mix', 1), (1, 'acc', 1)]]):
         out.append(Program(N, [(1, 'buffer', (0,), {'n': 2, 'writes': writes})], 'buffer%d' % k))
+    for mode in ('read', 'write'):
+        out.append(Program(N, [(1, 'buffer_views', (0,), {'mode': mode})], 'buffer_views[%s]' % mode))
+        out.append(Program(N, [(1, 'sin', (0,), {}), (2, 'buffer_views', (1,), {'mode': mode}), (3, 'exp', (2,), {})], 'buffer_views[%s]+' % mode))
     return [p for p in out if p.shapes() is not None]
 
 
 def random_programs(n, rng, N=3, maxlen=5, poly_only=False):
-    out = []; names = [k for k, o in OPS.items() if (o['poly'] or not poly_only) and k not in ('inv_p', 'solve_p')]
+    out = []; names = [k for k, o in OPS.items() if (o['poly'] or not poly_only) and k not in ('inv_p', 'solve_p', 'buffer_views')]
     tries = 0
     while len(out) < n and tries < n * 60:
         tries += 1
